@@ -33,7 +33,8 @@ EXPLANATION = (
     "radicands (finding F7, fixed: psi was hard-wired to its alpha = 1/2 value); (R9) the shared one-sided Newton iteration stops on "
     "a relative step; (R10) degree() of every cone type is its barrier parameter (3, 3, dim1+1, 1, dim, n, 0)."
     " (R11) symbolic differentiation with log / powf as differentiable atoms: for the exponential and power cone d barrier_dual / d z_i = grad_i and d grad_i / d z_j = H_ij exactly (18 rational-function identities)."
-    " R6 also: a vector that unit_initialization copies into the other one is final when copied.")
+    " R6 also: a vector that unit_initialization copies into the other one is final when copied."
+    " (R12) the closure passed to the one-sided Newton iteration as derivative is d/dx of the closure passed as function (power cone; generalised power cone term by term over the fold).")
 ASSUMPTIONS = ['rustc MIR construction and trait resolution are correct',
                'R4: identities over the reals; log(a b) = log a + log b and omega + log omega = x for omega = wright_omega(x)']
 
@@ -710,7 +711,7 @@ def _inv(u, reg):
     return r
 
 
-def P_diff(poly, var, defs, reg, depth=0):
+def P_diff(poly, var, defs, reg, depth=0, consts=False):
     """d poly / d var for a polynomial over coordinate atoms, recip atoms (reg), log / pow atoms (defs)"""
     if depth > 8:
         raise _NoDerivative('nesting too deep')
@@ -719,21 +720,21 @@ def P_diff(poly, var, defs, reg, depth=0):
         if isinstance(a, str):
             if a == var:
                 return P_const(1)
-            if _re.fullmatch(r'[a-z]\d', a) or a == 'alpha':
+            if _re.fullmatch(r'[a-z]\d', a) or a == 'alpha' or consts:
                 return {}
             raise _NoDerivative('opaque atom %r' % (a,))
         if a[0] == 'recip' and a in reg:
-            du = P_diff(reg[a], var, defs, reg, depth + 1)
+            du = P_diff(reg[a], var, defs, reg, depth + 1, consts)
             return _P_scale(P_mul(du, P_mul(P_atom(a), P_atom(a))), -1)
         if a in defs:
             kind, args = defs[a]
             if kind == 'log':
-                du = P_diff(args[0], var, defs, reg, depth + 1)
+                du = P_diff(args[0], var, defs, reg, depth + 1, consts)
                 return P_mul(du, _inv(args[0], reg)) if du else {}
             if kind == 'pow':
-                if P_diff(args[1], var, defs, reg, depth + 1):
+                if P_diff(args[1], var, defs, reg, depth + 1, consts):
                     raise _NoDerivative('exponent depends on the variable')
-                db = P_diff(args[0], var, defs, reg, depth + 1)
+                db = P_diff(args[0], var, defs, reg, depth + 1, consts)
                 return P_mul(P_mul(args[1], P_atom(a)), P_mul(db, _inv(args[0], reg))) if db else {}
         raise _NoDerivative('opaque atom %r' % (a,))
     total = {}
@@ -806,6 +807,126 @@ def barrier_derivatives(rep, F, E, tag):
     R.guard(body)
 
 
+def _closure_atoms(holder, xnames, fold=False, consts=None):
+    """atoms for the Newton closures: the iteration variable is 'x' (own parameter, or captured under one of xnames), the fold
+    accumulator is 'acc', every other parameter / captured value a constant atom; log calls are differentiable atoms"""
+    def atoms(k, s_):
+        if fold:
+            if k == 'arg2':
+                return ('S', P_atom('acc'))
+            if k in ('arg3', 'arg3.0'):
+                return ('S', P_atom('c:elem'))      # the exponent alpha_i (f folds over (alpha_i, p_i), f' over alpha_i)
+            if k == 'arg3.1':
+                return ('S', P_atom('c:elem1'))
+        elif k == 'arg2':
+            return ('S', P_atom('x'))
+        m = _re.fullmatch(r'arg1\.(?:_ref__)?(\w+)', k)
+        if m:
+            if consts and m.group(1) in consts:
+                return ('S', P_const(consts[m.group(1)]))
+            return ('S', P_atom('x' if m.group(1) in xnames else 'c:' + m.group(1)))
+        if s_[0] == 'call':
+            nm = last_seg(s_[1].split('#')[0])
+            if nm in ('logsafe', 'ln'):
+                I_ = holder['I']
+                v = I_.ev({}, s_[2][0])
+                if v is not None and v[0] == 'S':
+                    atom = ('log', P_key(v[1]))
+                    holder['defs'][atom] = ('log', [v[1]])
+                    return ('S', P_atom(atom))
+        return None
+    return atoms
+
+
+def newton_derivative(rep, F, E, tag):
+    """The conjugate (primal) gradient of the power cones is obtained from the root of a scalar equation f(x) = 0 by a one-sided Newton
+    iteration that is handed f and f' as two separately written closures.  f' must be the derivative of f: a wrong f' makes the
+    iteration overshoot and the one-sided stopping rule halt away from the root.  Decided exactly (symbolic differentiation, log as a
+    differentiable atom); for the generalised power cone term by term over the fold (initial value and summand)."""
+    R = rep.rule('C14.R12', 'Newton iterations of the power and generalised power cone: the closure passed as derivative is d/dx of the closure passed as function (exact)')
+
+    def body():
+        n = 0
+
+        def literal_captures(f_):
+            # captured locals of the enclosing function that are numeric literals (e.g. `two`), by name
+            out = {}
+            for c_ in f_.calls:
+                for a_ in c_.args:
+                    s_ = f_.sym_operand(a_)
+                    while s_[0] in ('ref', 'deref'):
+                        s_ = s_[1]
+                    if s_[0] == 'agg' and s_[1][0] == 'closure':
+                        for nm_, op_ in zip(s_[1][2], s_[2]):
+                            m_ = _re.fullmatch(r'(-?\d+(?:\.\d+)?)(f64|f32)?', canon(op_))
+                            if m_:
+                                out[nm_.replace('_ref__', '')] = Fraction(m_.group(1))
+            return out
+        lits = {}
+
+        def ev_closure(g, fold, sym=None):
+            reg, holder = {}, {'defs': {}}
+            I = LFSplit(F, E, g, _closure_atoms(holder, ('x',), fold, lits), reg)
+            holder['I'] = I
+            v = I.ev({}, sym if sym is not None else g.sym_local(0))
+            return v, reg, holder['defs']
+
+        def same(d0, v1, reg, what, loc):
+            diff = to_ratf(d0, reg) + to_ratf(v1, reg) * RatF(P_const(-1))
+            R.check(diff.is_zero(), what + tag, '%s: d f/dx - f\' = %s, not identically zero' % (what, P_fmt(diff.n)[:200]), loc)
+
+        f = F.one(name='_newton_raphson_powcone')
+        lits.clear()
+        lits.update(literal_captures(f))
+        cl = F.closures_of.get(f.key, [])
+        if R.check(len(cl) == 2, 'closures|PowerCone' + tag, '_newton_raphson_powcone has %d closures' % len(cl), f.loc()):
+            (v0, reg0, d0), (v1, reg1, d1) = ev_closure(cl[0], False), ev_closure(cl[1], False)
+            if R.check(v0 is not None and v1 is not None and v0[0] == 'S' and v1[0] == 'S', 'shape|PowerCone' + tag, 'f / f\' of the power cone not evaluated', f.loc()):
+                reg = dict(reg0)
+                reg.update(reg1)
+                try:
+                    same(P_diff(v0[1], 'x', d0, reg, consts=True), v1[1], reg, 'derivative|PowerCone', cl[1].loc())
+                    n += 1
+                except _NoDerivative as e:
+                    R.bad('differentiable|PowerCone' + tag, 'cannot differentiate f (%s)' % e, cl[0].loc())
+        f = F.one(name='_newton_raphson_genpowcone')
+        lits.clear()
+        lits.update(literal_captures(f))
+        allc = [g for g in F.fns if g.key.startswith(f.key + '::{closure')]
+        cl = sorted([g for g in allc if _re.fullmatch(r'\{closure#\d+\}', g.key[len(f.key) + 2:])], key=lambda g: g.key)
+        inner_of = {c.key: [g for g in allc if g.key.startswith(c.key + '::')] for c in cl}
+        if R.check(len(cl) == 2 and all(len(inner_of[c.key]) == 1 for c in cl), 'closures|GenPowerCone' + tag, '_newton_raphson_genpowcone closure structure changed (%s)' % sorted(g.key[len(f.key):] for g in allc), f.loc()):
+            parts = []
+            for c in cl:
+                s0 = c.sym_local(0)
+                while s0[0] in ('ref', 'deref'):
+                    s0 = s0[1]
+                ok = s0[0] == 'call' and last_seg(s0[1].split('#')[0]) == 'fold' and len(s0[2]) == 3
+                if not R.check(ok, 'fold-shape|GenPowerCone' + tag, 'f / f\' is %s, expected a fold over the exponents' % canon(s0)[:80], c.loc()):
+                    return
+                init = ev_closure(c, False, s0[2][1])
+                inner = inner_of[c.key][0]
+                term = ev_closure(inner, True)
+                parts.append((init, term, c, inner))
+            (i0, t0, c0, in0), (i1, t1, c1, in1) = parts
+            if R.check(all(x[0] is not None and x[0][0] == 'S' for x in (i0, t0, i1, t1)), 'shape|GenPowerCone' + tag, 'initial values / summands of the folds not evaluated', f.loc()):
+                try:
+                    reg = dict(i0[1])
+                    reg.update(i1[1])
+                    same(P_diff(i0[0][1], 'x', i0[2], reg, consts=True), i1[0][1], reg, 'derivative|GenPowerCone|init', c1.loc())
+                    reg = dict(t0[1])
+                    reg.update(t1[1])
+                    # summand = body - accumulator
+                    b1 = P_add(t1[0][1], P_atom('acc'), -1)
+                    same(P_diff(t0[0][1], 'x', t0[2], reg, consts=True), b1, reg, 'derivative|GenPowerCone|summand', in1.loc())
+                    n += 2
+                except _NoDerivative as e:
+                    R.bad('differentiable|GenPowerCone' + tag, 'cannot differentiate f (%s)' % e, c0.loc())
+        R.check(n >= 3, 'count' + tag, 'only %d derivative identities decided' % n)
+
+    R.guard(body)
+
+
 def run(ctx, rep, tier):
     for cfg in (CONFIGS_THOROUGH if tier == 'thorough' else CONFIGS):
         F = ctx.facts(cfg)
@@ -822,6 +943,7 @@ def run(ctx, rep, tier):
         newton_relative_stop(rep, F, tag)
         barrier_parameters(rep, F, tag)
         barrier_derivatives(rep, F, E, tag)
+        newton_derivative(rep, F, E, tag)
         R6 = rep.rule('C14.R6', 'unit initialisation overwrites both vectors of every cone wholly (the documented start point is reached on every solve, not only the first)')
         from . import c05
         R6.guard(lambda: c05.unit_init_must_write(R6, F, tag))
